@@ -1,0 +1,49 @@
+//go:build verif
+
+package cli
+
+import (
+	"bytes"
+	"fmt"
+	"io"
+	"io/fs"
+
+	"github.com/pulumi/esc"
+	"github.com/pulumi/esc/cmd/esc/cli/workspace"
+)
+
+// Verification hook for property C17 (build tag "verif", add-only): reach the unexported renderValue — the function
+// behind `esc open --format F` and `esc env get --value F` — with an in-memory file system for temporary files.
+
+type verifC17FS struct {
+	workspace.FS // nil: renderValue never touches the workspace
+
+	prefix  string
+	created []string
+}
+
+func (*verifC17FS) Open(name string) (fs.File, error) { return nil, fs.ErrNotExist }
+
+type verifC17File struct{ bytes.Buffer }
+
+func (*verifC17File) Close() error { return nil }
+
+// CreateTemp names the n-th temporary file <prefix>esc-<n> and keeps its content in memory.
+func (f *verifC17FS) CreateTemp(dir, pattern string) (string, io.ReadWriteCloser, error) {
+	name := fmt.Sprintf("%sesc-%d", f.prefix, len(f.created))
+	f.created = append(f.created, name)
+	return name, &verifC17File{}, nil
+}
+
+func (f *verifC17FS) Remove(name string) error { return nil }
+
+// VerifC17Render runs renderValue on e exactly as `esc open` (pretend=false, showSecrets=true) and `esc env get`
+// (pretend=true) do and returns what the command would have written to stdout, plus the names of the temporary files
+// the command created (named <tempPrefix>esc-<n> by the in-memory file system).
+func VerifC17Render(e *esc.Environment, format string, pretend, showSecrets bool, tempPrefix string) (string, []string, error) {
+	vfs := &verifC17FS{prefix: tempPrefix}
+	cmd := &envCommand{esc: &escCommand{fs: vfs}}
+	var out bytes.Buffer
+	err := cmd.renderValue(&out, e, nil, format, pretend, showSecrets)
+	return out.String(), vfs.created, err
+}
